@@ -27,11 +27,17 @@ OUT_FUNCS = ['spyne.protocol._outbase.OutProtocolBase._datetime_to_unicode',
 
 DT_UTC = DateTime(as_timezone=pytz.utc)
 DT_NOTZ = DateTime(timezone=False)
+DT_Z530 = DateTime(as_timezone=pytz.FixedOffset(330))
+DT_ZM5_NOTZ = DateTime(as_timezone=pytz.FixedOffset(-300), timezone=False)
+ZONED = {id(DT_UTC): 0, id(DT_Z530): 330, id(DT_ZM5_NOTZ): -300}
 
 # (label, model, tz kind of the value)
 DT_PARAMS = [('naive', DateTime, 'naive'), ('utc', DateTime, 'utc'), ('offset', DateTime, 'offset'),
              ('as_timezone=utc/offset', DT_UTC, 'offset'), ('as_timezone=utc/naive', DT_UTC, 'naive'),
-             ('timezone=False/offset', DT_NOTZ, 'offset'), ('timezone=False/naive', DT_NOTZ, 'naive')]
+             ('timezone=False/offset', DT_NOTZ, 'offset'), ('timezone=False/naive', DT_NOTZ, 'naive'),
+             ('as_timezone=+05:30/offset', DT_Z530, 'offset'), ('as_timezone=+05:30/naive', DT_Z530, 'naive'),
+             ('as_timezone=-05:00,timezone=False/offset', DT_ZM5_NOTZ, 'offset'),
+             ('as_timezone=-05:00,timezone=False/naive', DT_ZM5_NOTZ, 'naive')]
 
 
 @harness('C08', params=DT_PARAMS, functions=IN_FUNCS[:2] + OUT_FUNCS[:1], label=lambda p: p[0],
@@ -41,7 +47,7 @@ def datetime_roundtrip(sx, p):
     """text is an xs:dateTime literal and reads back to the same instant and UTC offset"""
     label, T, tzkind = p
     # zone conversion at the very edge of datetime's range overflows inside CPython itself
-    v = sx.datetime('v', tz=tzkind, ymin=2, ymax=9998) if T is DT_UTC else sx.datetime('v', tz=tzkind)
+    v = sx.datetime('v', tz=tzkind, ymin=2, ymax=9998) if id(T) in ZONED else sx.datetime('v', tz=tzkind)
     text = PROT.to_unicode(T, v)
     sx.observe('text', text)
     lex = sx.matches(XS_DATETIME, text)
@@ -51,11 +57,14 @@ def datetime_roundtrip(sx, p):
         # the zone is dropped on purpose: local fields survive, the value read is naive
         want = v.replace(tzinfo=None)
         return sx.And(lex, off_b is None, sx.eq(back, want))
-    if T is DT_UTC:
+    if id(T) in ZONED:
+        zone = ZONED[id(T)]
         if off_v is None:
-            # naive values are written as they are and read back tagged with the zone
-            return sx.And(lex, sx.eq(off_b, 0), sx.eq(back.replace(tzinfo=None), v))
-        return sx.And(lex, sx.eq(off_b, 0), sx.eq(back, v))
+            # naive values are written as they are and read back tagged with the zone (local fields unchanged)
+            return sx.And(lex, sx.eq(off_b, zone), sx.eq(back.replace(tzinfo=None), v))
+        # aware values are converted to the zone; with timezone=False the literal carries no offset and the reader
+        # puts the zone back: same instant either way
+        return sx.And(lex, sx.eq(off_b, zone), sx.eq(back, v))
     if off_v is None:
         return sx.And(lex, off_b is None, sx.eq(back, v))
     return sx.And(lex, off_b is not None, sx.eq(off_b, off_v), sx.eq(back, v))
